@@ -24,7 +24,18 @@ let layout_of_csv s =
 
 let string_of_codes l = String.concat "" (List.map (fun c -> String.make 1 (Char.chr (int_of_z c land 255))) l)
 
-let lookup name : handle option = get_file name
+(* a path that exists but is not a regular whisper file -- a directory (some file lives below it)
+   or a path that runs through a regular file -- is "exists, cannot be opened": in the model, a
+   file whose header never reached the disk *)
+let unopenable = lazy (match create (z_of_int 2) Z0 [(z_of_int 1, z_of_int 1)] with Some h -> Some h | None -> None)
+let starts_with p s = String.length s >= String.length p && String.sub s 0 (String.length p) = p
+let lookup name : handle option =
+  match get_file name with
+  | Some h -> Some h
+  | None ->
+    let is_dir = Hashtbl.fold (fun k v acc -> acc || (v <> None && starts_with (name ^ "/") k)) files false in
+    let through_file = Hashtbl.fold (fun k v acc -> acc || (v <> None && starts_with (k ^ "/") name)) files false in
+    if name <> "" && (is_dir || through_file) then Lazy.force unopenable else None
 let exists name = match lookup name with Some _ -> true | None -> false
 
 let status_str = function StOk -> "ok" | StDiff -> "diff" | StNotExist -> "notexist" | StErr -> "err" | StPanic -> "panic"
@@ -276,6 +287,27 @@ let () =
            | Some why -> obs "cligenerate ok CONSTRAINT-VIOLATED %s" (String.concat "_" (String.split_on_char ' ' why))
            | None -> emit "cligenerate" StOk [header_record h])
         | st, _ -> obs "cligenerate %s" (status_str st))))
+
+(* genat: generate's fill at an explicit instant (hooks VerifRandomPointsList /
+   VerifUpdateFileDataWithPointsList): same model, same constraints *)
+let () =
+  register "cligenat" (fun tk ->
+    let kv = kv_of tk in
+    let layout = layout_of_csv (get kv "layout" "") in
+    let now = getz kv "now" 0 in
+    let pl = List.map (fun e -> match String.split_on_char ':' e with
+        | [a; t; v] -> (int_of_string a, int_of_string t, (if v = "nan" then z_of_hex "7ff8000000000001" else z_of_hex v))
+        | _ -> failwith "pl") (split_on ',' (get kv "pl" "-")) in
+    let k = List.length layout in
+    let lists = List.init k (fun i -> List.filter_map (fun (a, t, v) -> if a = i then Some { p_time = z_of_int t; p_val = v } else None) pl) in
+    let (st, f) = generate_cmd flocq_fops false (getz kv "m" 2) (z_of_hex (get kv "x" "3f000000")) layout lists now in
+    (match f with Some h -> set_file (get kv "dest" "") (Some h) | None -> ());
+    match st with
+    | StOk ->
+      (match gen_constraints layout (geti kv "max" 10) true (int_of_z now) pl with
+       | Some why -> obs "cligenat ok CONSTRAINT-VIOLATED %s" (String.concat "_" (String.split_on_char ' ' why))
+       | None -> obs "cligenat ok")
+    | st -> obs "cligenat %s" (status_str st))
 
 let () =
   register "clihttpview" (fun tk ->
